@@ -40,6 +40,16 @@ Theorem C12_plane : forall pl p, dot3 (pl_n pl) (pl_n pl) == 1 ->
 Proof. exact closest_point3d_on_plane_correct. Qed.
 Print Assumptions C12_plane.
 
+(* closest points between a segment and a plane (generated closest_point3d_between_line3d_plane): the returned segment point has the least
+   |height| above the plane among all points of the segment, and the second point is its projection on the plane *)
+From LBG Require Import C12_lineplane.
+Theorem C12_segment_plane_closest_points : forall l pl a b,
+  closest_point3d_between_line3d_plane_seg l pl = Some (a, b) ->
+  b = closest_point3d_on_plane a pl /\
+  exists u, in_seg u /\ a =3= on3 l u /\ forall t, in_seg t -> Qabs (height l pl u) <= Qabs (height l pl t).
+Proof. exact closest_segment_plane_correct. Qed.
+Print Assumptions C12_segment_plane_closest_points.
+
 Example C12_nonvacuous :
   let l := mkLR2 (mkV2 0 0) (mkV2 4 0) in
   ~ dot2 (lr2v l) (lr2v l) == 0 /\ in_seg (1#4) /\
